@@ -38,6 +38,25 @@ Monitors (all decide on bytes produced by the real library):
                  yield injection on the builders: every datagram decodes to
                  the message its own thread gave, no valid message is refused.
 
+  arguments are  (round 10) class: MUTABLE ARGUMENT OBJECTS SENT MORE THAN ONCE AND
+  inputs         INSPECTED AFTER THE CALL.  A deep snapshot (vf/c06_model.snapshot)
+                 of the caller's list is taken before the first send: bytearray
+                 blobs, writable memoryviews over a bytearray / BytesIO buffer,
+                 nested message / bundle lists, array regions, element lists.
+                 After EVERY operation (accepted or refused build, public send,
+                 size prediction, clumped / sync / BundleNetAddr send, /d_recv,
+                 concurrent encode) the objects must still equal the snapshot
+                 (C06/argument-mutated/<kind of object>), and the same objects
+                 then go through 1-3 further operations (builder again, public
+                 send, predictor, as element of an immediate bundle, as
+                 completion message of another message; SynthDef bytes sent 2-3
+                 times; clump 'reuse' histories with bytearray / view payloads):
+                 the k-th encoding must decode to the expectation computed from
+                 the snapshot - never from the possibly mutated object - and a
+                 repeated build with the same send time must be byte-identical
+                 (C06/resend-differs/<what>).  In 8 % of the cases the SAME
+                 mutable object sits at two positions of one packet (aliasing).
+
 Observation outside the property (counted, never a violation): MIDI 4-tuples
 with values outside 0-255 are masked with & 0xFF (observed_midi_bytes_masked).
 """
@@ -49,7 +68,9 @@ RULE = ("seeded random OSC lists: addresses over printable ASCII, 0-10 "
         "arguments from int32 (and just outside), float (inf, nan, denormal, "
         "above float32 range), ASCII / non-ASCII strings of every length mod 4, "
         "strings with NUL, bytes/bytearray/memoryview of length 0-70 and up to "
-        "6000, bool, None, [], nested message and bundle lists to depth 3, array "
+        "6000 (bytearrays and writable views re-sent 1-3 times through builder / "
+        "send / predictor / wrapping packets, the same object at two positions), "
+        "bool, None, [], nested message and bundle lists to depth 3, array "
         "markers (balanced and not), MIDI 4-tuples, unsupported types; bundles "
         "nested to depth 5 with None / negative / equal / increasing / "
         "decreasing latencies; element lists whose predicted size straddles "
@@ -111,6 +132,13 @@ MIN_COUNTERS = {
     'conc_injected_yields': 200,
     'packet_sequences_with_timetag_ties': 300,
     'dispatch_sequences_compared': 200,
+    'argument_snapshots_compared': 50000,
+    'resend_histories_checked': 3000,
+    'resend_histories_with_mutable_blob': 1000,
+    'resend_ops_checked': 6000,
+    'aliased_argument_cases': 500,
+    'clump_reuse_steps_with_mutable_blob': 20,
+    'drecv_resends_checked': 100,
 }
 
 
@@ -204,6 +232,7 @@ def check_packet(cx, i, lst, is_bundle, rng, hostile):
         undecided = e.reason
     what = 'bundle' if is_bundle else 'msg'
     before = M.srepr(lst)
+    snap = M.snapshot(lst)     # the caller's objects before the first send
     try:
         if public:
             del cx.captured[:]
@@ -246,10 +275,14 @@ def check_packet(cx, i, lst, is_bundle, rng, hostile):
                     f'C06/build-fails-on-representable-value/{_exc_key(e)}',
                     {'case': i, 'input': before[:400],
                      'exception': f'{type(e).__name__}: {e}'[:200]})
-        if M.srepr(lst) != before:
-            acc.count('input_mutated_by_refused_build')
+        # refused or not: the arguments are the caller's
+        report_mutations(cx, i, snap, lst, before, 'refused ' + what, [])
         return None
     acc.count(f'{what}s_accepted')
+    if 'memoryview-released' in report_mutations(
+            cx, i, snap, lst, before, 'first send',
+            ['send' if public else 'build']):
+        return None             # the caller's view is gone: nothing to re-send
     if undecided:
         acc.count(f'accepted_undecided/{undecided}')
         if undecided == 'midi-byte-out-of-range':
@@ -298,8 +331,6 @@ def check_packet(cx, i, lst, is_bundle, rng, hostile):
         acc.violation(f'C06/roundtrip-differs/{slug}',
                       {'case': i, 'input': before, 'dgram': dgram[:300],
                        'decoded': repr(dec)[:600], 'mode': cx.mode})
-    if M.srepr(lst) != before:
-        acc.count('input_list_mutated_by_build')
     # ---- library reader ---------------------------------------------------
     if not mism:
         try:
@@ -347,11 +378,128 @@ def check_packet(cx, i, lst, is_bundle, rng, hostile):
         else:
             report_underprediction(cx, i, lst, before, pred, real,
                                    'message' if not is_bundle else 'bundle')
+    if pred is not None:
+        report_mutations(cx, i, snap, lst, before, 'size prediction',
+                         ['send' if public else 'build', 'predict'])
+    # ---- the same objects again ---------------------------------------------
+    if not mism:
+        resend_history(cx, i, lst, is_bundle, rng, snap, before, exp, dgram,
+                       public, send_time, pred)
     nontriv = M.features_nontrivial(feats)
     if acc.want_sample() and nontriv and len(before) < 200:
         acc.sample({'case': i, 'input': before, 'dgram': dgram,
                     'predicted_size': pred, 'real_size': len(dgram)})
     return nontriv
+
+
+def report_mutations(cx, i, snap, obj, before, when, history, role='packet'):
+    """Arguments are inputs: the caller's objects must still equal the deep
+    snapshot taken before the first send.  -> set of mutation kinds."""
+    muts = cx.M.mutations(snap, obj, role)
+    cx.acc.count('argument_snapshots_compared')
+    for k in sorted(muts):
+        cx.acc.violation(f'C06/argument-mutated/{k}',
+                         {'case': i, 'after': when, 'history': list(history),
+                          'given': before[:400],
+                          'now': cx.M.srepr(obj)[:400], 'mode': cx.mode})
+    return muts
+
+
+def resend_history(cx, i, lst, is_bundle, rng, snap, before, exp, first,
+                   public, send_time, pred):
+    """The SAME list / blob objects go through 1-3 further operations (builder,
+    public send, size predictor, as element of an immediate bundle, as
+    completion message of another message).  Every expectation comes from
+    `exp` / `snap`, computed before the first send: the k-th encoding must
+    carry what the first one carried and the objects must stay as given."""
+    acc, M, osc = cx.acc, cx.M, cx.osc
+    mutable = M.has_mutable_blob(lst)
+    if rng.random() >= (0.8 if mutable else 0.1):
+        return
+    menu = ['build', 'build', 'predict', 'wrapped', 'completion']
+    if cx.mode == 'rt':
+        menu += ['send', 'send']
+    if pred is None:              # the predictor's failure is reported above
+        menu = [o for o in menu if o != 'predict']
+    ops = [rng.choice(menu) for _ in range(rng.randint(1, 3))]
+    if all(o == 'predict' for o in ops):
+        ops.append('build')
+    imm = cx.ttf(send_time)(None)
+    exp_u = M.untimed(exp)
+    done = ['send' if public else 'build']
+    acc.count('resend_histories_checked')
+    if mutable:
+        acc.count('resend_histories_with_mutable_blob')
+    reported = set()
+    for op in ops:
+        if op == 'completion' and is_bundle and \
+                not (len(lst) > 1 and isinstance(lst[1], list)):
+            op = 'build'            # [time] alone is not bundle-shaped
+        done.append(op)
+        w = {'case': i, 'history': list(done), 'given': before[:400],
+             'mode': cx.mode}
+        raw = want = None
+        try:
+            if op == 'build':
+                raw = bytes((cx.iface._build_bundle if is_bundle else
+                             cx.iface._build_msg)(send_time, lst).dgram)
+                want = exp
+            elif op == 'send':
+                del cx.captured[:]
+                if is_bundle:
+                    cx.addr.send_bundle(lst[0], *lst[1:])
+                else:
+                    cx.addr.send_msg(*lst)
+                if len(cx.captured) != 1:
+                    acc.violation(
+                        f'C06/resend-differs/handed-{len(cx.captured)}-datagrams', w)
+                    return
+                raw, want = cx.captured[0], exp_u
+            elif op == 'predict':
+                p = predict(cx, lst)
+                if pred is not None and p != pred:
+                    acc.violation('C06/resend-differs/predicted-size',
+                                  dict(w, first=pred, now=p))
+            elif op == 'wrapped':
+                raw = bytes(cx.iface._build_bundle(send_time, [None, lst]).dgram)
+                want = ('bundle', imm, [exp])
+            else:
+                raw = bytes(cx.iface._build_msg(send_time, ['/c06', 7, lst]).dgram)
+                want = ('msg', '/c06',
+                        [('i', 7), ('blobbundle' if is_bundle else 'blobmsg', exp)])
+        except Exception as e:
+            # accepted the first time, refused now
+            acc.violation(f'C06/resend-differs/refused-{type(e).__name__}',
+                          dict(w, exception=f'{type(e).__name__}: {e}'[:200],
+                               site=_exc_key(e)))
+            report_mutations(cx, i, snap, lst, before, op, done)
+            return
+        acc.count('resend_ops_checked')
+        acc.count(f'resend_ops/{op}')
+        if raw is not None:
+            same_bytes = op == 'build' and not public and raw == first
+            if same_bytes:
+                acc.count('resend_bytes_identical')
+            else:
+                try:
+                    slugs = {M.mechanism(m)
+                             for m in M.compare(osc.decode(raw), want)}
+                except osc.OscError as e:
+                    slugs = {'nonconformant-' + M._slug(str(e))}
+                if not slugs and op == 'build' and not public:
+                    slugs = {'bytes'}
+                for s in sorted(slugs - reported):
+                    acc.violation(f'C06/resend-differs/{s}',
+                                  dict(w, dgram=raw[:300], first_dgram=first[:300]))
+                reported |= slugs
+        # (reported once per kind; the history goes on with the objects as the
+        # library left them, judged against the snapshot)
+        muts = M.mutations(snap, lst)
+        acc.count('argument_snapshots_compared')
+        for k in sorted(muts - reported):
+            acc.violation(f'C06/argument-mutated/{k}',
+                          dict(w, after=op, now=M.srepr(lst)[:400]))
+        reported |= muts
 
 
 CAUSES = {'blob': 'blob-not-padded',
@@ -573,6 +721,17 @@ def dispatch_check(cx, dgram, dec, exp):
 # clumping
 # --------------------------------------------------------------------------
 
+def _buf(rng, b):
+    """A blob as the application may hold it: immutable bytes, its own
+    reusable bytearray, or a writable view over one."""
+    k = rng.random()
+    if k < 0.6:
+        return b
+    if k < 0.87:
+        return bytearray(b)
+    return memoryview(bytearray(b))
+
+
 def gen_payload(rng, M, family, size_hint):
     """Extra arguments of one element."""
     if family == 'tiny':
@@ -586,13 +745,14 @@ def gen_payload(rng, M, family, size_hint):
         k = rng.random()
         if family == 'under' and k < 0.5:
             if rng.random() < 0.5:
-                out.append(rng.randbytes(n // 4 * 4 + rng.randint(1, 3)))
+                out.append(_buf(rng, rng.randbytes(n // 4 * 4 + rng.randint(1, 3))))
             else:
                 out.append(''.join(rng.choice('é€日𝄞a') for _ in range(n // 3 + 1)))
         elif k < 0.4:
             out.append('s' * n)
         elif k < 0.7:
-            out.append(rng.randbytes(max(4, n // 4 * 4)))
+            out.append(_buf(rng, rng.randbytes(max(4, n // 4 * 4)
+                                               + rng.choice([0, 0, 1, 2, 3]))))
         elif k < 0.78:
             out.append(rng.randint(-5, 5))
         elif k < 0.8:
@@ -863,7 +1023,9 @@ def run_clump(spec, acc):
         else:
             elements = gen_elements(rng, M, family, target)
         latency = rng.choice([None, 0, 0.2, 0.2, 1.5])
-        original = copy.deepcopy(elements)
+        original = M.clone(elements)     # (deepcopy cannot copy memoryviews)
+        snap = M.snapshot(elements)
+        mutable = M.has_mutable_blob(elements)
         exp_elems = [(M.expect_msg if isinstance(e[0], str) else M.expect_bundle)(
             e, lambda L: None) for e in original]
         before = M.srepr(original)
@@ -898,7 +1060,18 @@ def run_clump(spec, acc):
             res = check_clump_op(cx, i, op, family, step, ops, elements, original,
                                  exp_elems, dgrams, sync_ids)
             # the caller's list is the caller's: it must come back as given
-            if M.srepr(elements) != before:
+            muts = M.mutations(snap, elements, 'elements')
+            acc.count('argument_snapshots_compared')
+            for kind in sorted(muts - {'element-list-length-changed'}):
+                # an argument object below the element list was changed
+                acc.violation(f'C06/argument-mutated/{kind}',
+                              {'case': i, 'after': op, 'family': family,
+                               'step': step, 'history': ops[:step + 1]})
+                checked = False
+            if muts:
+                snap = M.snapshot(elements)      # report once
+            if M.srepr(elements) != before and \
+                    (not muts or 'element-list-length-changed' in muts):
                 acc.violation(
                     'C06/sync/caller-list-mutated' if op == 'sync' else
                     'C06/clump/caller-list-mutated',
@@ -907,6 +1080,7 @@ def run_clump(spec, acc):
                      'elements_after_call': len(elements),
                      'appended': M.srepr(elements[len(original):])[:300]})
                 checked = False
+            if muts:
                 before = M.srepr(elements)   # report once; the history goes
                 # on with the list as the library left it: what later sends
                 # carry is judged against the caller's original elements
@@ -916,6 +1090,8 @@ def run_clump(spec, acc):
             acc.count('clump_ops_checked')
             if step:
                 acc.count('clump_reuse_steps_checked')
+                if mutable:
+                    acc.count('clump_reuse_steps_with_mutable_blob')
         if not checked:
             continue
         acc.count('clump_cases_checked')
@@ -1106,13 +1282,41 @@ def run_drecv(spec, acc):
         n = max(1, n)
         sd = SynthDef.__new__(SynthDef)
         sd._name = f'c06_{i}'
-        sd._bytes = memoryview(rng.randbytes(n))
+        content = rng.randbytes(n)
+        k = rng.random()
+        if k < 0.4:
+            sd._bytes = memoryview(content)
+        elif k < 0.7:         # what as_bytes() caches: BytesIO.getbuffer()
+            import io
+            sd._bytes = io.BytesIO(content).getbuffer()
+        else:
+            sd._bytes = memoryview(bytearray(content))
+        comp_snap = M.snapshot(comp)
+        sends = rng.choice([1, 1, 2, 3])
         del cx.captured[:]
         try:
-            sd._do_send(server, comp)
+            for _ in range(sends):      # the def is sent again (other server,
+                sd._do_send(server, comp)      # reboot): same bytes every time
         except Exception as e:
             acc.count(f'drecv_refused/{_exc_key(e)}')
             continue
+        acc.count('argument_snapshots_compared')
+        now = M.snapshot(sd._bytes)
+        if now[0] != 'memoryview' or now[1] != content:
+            acc.violation('C06/argument-mutated/synthdef-bytes',
+                          {'case': i, 'blob_bytes': n, 'sends': sends,
+                           'now': repr(now)[:120]})
+            continue
+        for kind in sorted(M.mutations(comp_snap, comp)):
+            acc.violation(f'C06/argument-mutated/{kind}',
+                          {'case': i, 'where': 'd_recv completion message',
+                           'sends': sends})
+        if sends > 1:
+            acc.count('drecv_resends_checked')
+            if len(set(cx.captured)) > 1:
+                acc.violation('C06/resend-differs/bytes',
+                              {'case': i, 'where': 'd_recv', 'sends': sends,
+                               'sizes': [len(r) for r in cx.captured]})
         acc.count('drecv_routes_checked')
         if not cx.captured:
             acc.count('drecv_route_declined')
@@ -1120,7 +1324,7 @@ def run_drecv(spec, acc):
             continue
         acc.count('drecv_route_taken')
         raw = cx.captured[0]
-        exp = M.expect_msg(['/d_recv', bytes(sd._bytes), comp], lambda L: None)
+        exp = M.expect_msg(['/d_recv', content, M.clone(comp)], lambda L: None)
         try:
             mism = M.compare(osc.decode(raw), exp)
         except osc.OscError as e:
@@ -1201,7 +1405,7 @@ def run_conc(spec, acc):
         ttf = cx.ttf_unknown if path.startswith('send') else cx.ttf(send_time)
         return (M.expect_msg if path.endswith('msg') else M.expect_bundle)(lst, ttf)
 
-    def judge(path, lst, send_time, out):
+    def judge(path, lst, send_time, out, exp=None):
         """None or (mechanism, detail)."""
         if isinstance(out, Exception):
             return f'valid-message-refused/{type(out).__name__}', repr(out)[:200]
@@ -1211,7 +1415,7 @@ def run_conc(spec, acc):
             dec = osc.decode(out)
         except osc.OscError as e:
             return 'nonconformant-datagram', str(e)
-        mism = M.compare(dec, expectation(path, lst, send_time))
+        mism = M.compare(dec, exp or expectation(path, lst, send_time))
         if mism:
             return 'datagram-differs-from-the-message-given', \
                 sorted({M.mechanism(m) for m in mism})[:4]
@@ -1232,7 +1436,8 @@ def run_conc(spec, acc):
                         lst = ['/s_new', f'def{t}', len(items), 0, 1, uid]
                         for a in range(rng.randint(1, size)):
                             lst += [rng.choice(['freq', 'amp', 'pan', 'é' * (t + 1)]),
-                                    rng.choice([440.0 + t, t, a, b'x' * (t + 1)])]
+                                    rng.choice([440.0 + t, t, a, b'x' * (t + 1),
+                                                bytearray(b'y' * (t + a % 7 + 1))])]
                         if rng.random() < 0.3:     # completion message / bundle
                             lst.append(rng.choice([
                                 ['/n_free', t, uid],
@@ -1248,20 +1453,27 @@ def run_conc(spec, acc):
                     send_time = rng.uniform(0, 100)
                     # single-threaded reference run: only packets that are
                     # accepted and correct alone take part
+                    # (expectation and snapshot from BEFORE the first send:
+                    # the threads re-send the same objects)
                     try:
+                        exp = expectation(path, lst, send_time)
+                        snap = M.snapshot(lst)
                         if judge(path, lst, send_time,
-                                 build(path, lst, send_time)) is not None:
+                                 build(path, lst, send_time), exp) is not None:
                             continue
                     except Exception:
                         continue
-                    items.append((path, lst, send_time))
+                    if report_mutations(cx, i, snap, lst, M.srepr(lst),
+                                        'single-threaded reference ' + path, [path]):
+                        continue
+                    items.append((path, lst, send_time, exp, snap))
                 work.append(items)
             results = [[] for _ in work]
             barrier = threading.Barrier(nthreads)
 
             def worker(t):
                 barrier.wait()
-                for path, lst, send_time in work[t]:
+                for path, lst, send_time, _exp, _snap in work[t]:
                     with lock:
                         if state['inflight']:
                             state['overlaps'] += 1
@@ -1287,10 +1499,12 @@ def run_conc(spec, acc):
                 return
             bad = 0
             for t, items in enumerate(work):
-                for (path, lst, send_time), out in zip(items, results[t]):
+                for (path, lst, send_time, exp, snap), out in zip(items, results[t]):
                     acc.count('conc_encodings')
                     acc.count(f'conc_encodings/{path}')
-                    r = judge(path, lst, send_time, out)
+                    report_mutations(cx, i, snap, lst, '', 'concurrent ' + path,
+                                     [path, path])
+                    r = judge(path, lst, send_time, out, exp)
                     if r:
                         bad += 1
                         acc.violation(
@@ -1323,13 +1537,31 @@ def run_shard(spec, acc):
         hostile = rng.choice(M.HOSTILE) if rng.random() < 0.2 else None
         if kind == 'msg':
             lst = gen_or_retry(lambda: M.gen_msg(rng, 0, hostile))
+            alias_argument(cx, spec, i, lst)
             nt = check_packet(cx, i, lst, False, rng, hostile)
         else:
             order = rng.choice(['ok', 'ok', 'ok', 'tie', 'tie', 'any'])
             lst = gen_or_retry(lambda: M.gen_bundle(rng, 0, order=order,
                                                     hostile=hostile))
+            alias_argument(cx, spec, i, lst)
             nt = check_packet(cx, i, lst, True, rng, hostile)
         acc.case(h64(M.srepr(lst)), nontrivial=bool(nt))
+
+
+def alias_argument(cx, spec, i, lst):
+    """In some cases the SAME mutable object (bytearray / writable view blob,
+    nested message or bundle list, element list) sits at two positions of one
+    packet: both positions must encode what the object held when given."""
+    rng = case_rng(spec['seed'], 'C06', 'alias', i)
+    if rng.random() >= 0.08:
+        return
+    idx = [j for j in range(1, len(lst))
+           if isinstance(lst[j], (bytearray, memoryview, list)) and len(lst[j])]
+    if not idx:
+        return
+    j = rng.choice(idx)
+    lst.insert(rng.randint(j, len(lst)), lst[j])
+    cx.acc.count('aliased_argument_cases')
 
 
 def gen_or_retry(f):
